@@ -231,7 +231,20 @@ func drawC13b(t *rapid.T) *c13bScenario {
 	k := gen.DefaultKnobs()
 	k.MaxNodes = 2
 	k.CustomKeyHeavy = true
-	return &c13bScenario{World: gen.World(t, k), MaxTypes: rapid.SampledFrom([]int{2, 3, 5, 600}).Draw(t, "maxInstanceTypes")}
+	w := gen.World(t, k)
+	// template annotations: arbitrary ones, and - as happens when a manifest is pasted from an existing NodeClaim - the
+	// keys Karpenter itself maintains
+	for i, np := range w.Pools {
+		if !dpct(t, 30, fmt.Sprintf("c13b_annotated%d", i)) {
+			continue
+		}
+		np.Spec.Template.Annotations = map[string]string{"ex.io/owner": "team-a"}
+		if dpct(t, 50, fmt.Sprintf("c13b_hashKeys%d", i)) {
+			np.Spec.Template.Annotations[v1.NodePoolHashAnnotationKey] = "1234567890"
+			np.Spec.Template.Annotations[v1.NodePoolHashVersionAnnotationKey] = rapid.SampledFrom([]string{"v1", "v3"}).Draw(t, fmt.Sprintf("c13b_hashVersion%d", i))
+		}
+	}
+	return &c13bScenario{World: w, MaxTypes: rapid.SampledFrom([]int{2, 3, 5, 600}).Draw(t, "maxInstanceTypes")}
 }
 
 type memClaim struct {
@@ -503,6 +516,11 @@ func execC13b(s *c13bScenario, c *ev.Ctx) {
 			}
 			if !reflect.DeepEqual(api.Spec.NodeClassRef, tmpl.Spec.NodeClassRef) || !reflect.DeepEqual(api.Spec.TerminationGracePeriod, tmpl.Spec.TerminationGracePeriod) || jsonOf(api.Spec.ExpireAfter) != jsonOf(tmpl.Spec.ExpireAfter) {
 				c.Violate("e2e:template-spec", "NodeClaim %s nodeClassRef/terminationGracePeriod/expireAfter differ from the template", api.Name)
+			}
+			for k, v := range tmpl.Annotations {
+				if k != v1.NodePoolHashAnnotationKey && k != v1.NodePoolHashVersionAnnotationKey && api.Annotations[k] != v {
+					c.Violate("e2e:template-annotation", "NodeClaim %s annotation %s=%q, template says %q", api.Name, k, api.Annotations[k], v)
+				}
 			}
 			if api.Annotations[v1.NodePoolHashAnnotationKey] != np.Hash() || api.Annotations[v1.NodePoolHashVersionAnnotationKey] != v1.NodePoolHashVersion {
 				c.Violate("e2e:hash", "NodeClaim %s hash annotations %q/%q, NodePool hash %q/%q", api.Name, api.Annotations[v1.NodePoolHashAnnotationKey], api.Annotations[v1.NodePoolHashVersionAnnotationKey], np.Hash(), v1.NodePoolHashVersion)
